@@ -273,9 +273,13 @@ func stubRespond(req *dns.Msg) *dns.Msg {
 				sig(owner, dns.TypeNSEC, zone, 300))
 		}
 		m.AuthenticatedData = true
-	case "cng":
-		// signed alias to a signed target (sgt)
+	case "cng", "cnu":
+		// signed alias to a signed target (sgt) / to an unsigned one (tgt): the
+		// composed answer is authenticated only if every hop is
 		target := under("sgt", restOf(q.Name))
+		if scn == "cnu" {
+			target = under("tgt", restOf(q.Name))
+		}
 		m.Answer = append(m.Answer, &dns.CNAME{Hdr: dns.RR_Header{Name: owner, Rrtype: dns.TypeCNAME, Class: q.Qclass, Ttl: 200}, Target: target}, sig(owner, dns.TypeCNAME, zone, 200))
 		m.AuthenticatedData = true
 	case "nx":
@@ -469,6 +473,12 @@ func canonSection(rrs []dns.RR) []canonRR {
 		if sg, ok := r.(*dns.RRSIG); ok {
 			// the validity window is wall-clock derived in the stub: keep all other fields
 			rest = fmt.Sprintf("IN RRSIG %d %d %d %d %s", sg.TypeCovered, sg.Algorithm, sg.Labels, sg.KeyTag, sg.SignerName)
+		}
+		switch h.Rrtype {
+		case dns.TypeNS, dns.TypeCNAME, dns.TypeSOA, dns.TypePTR, dns.TypeMX, dns.TypeDNAME, dns.TypeSRV:
+			// names inside this RDATA may be compression pointers into the echoed
+			// question and then decode with the client's spelling (see notes/C05.md)
+			rest = strings.ToLower(rest)
 		}
 		out = append(out, canonRR{owner: unmark(strings.ToLower(h.Name)), rest: unmark(rest), ttl: h.Ttl})
 	}
@@ -833,10 +843,14 @@ func execQ(a map[string]string) vlib.Res {
 
 	// warm-up: the same plain question through the same entry for all three names
 	callsBefore := live.Stub.Calls.Load()
-	if !strings.Contains(s.name, "@") && warm != "raw" && warm != "msg" {
-		// the three paths share one name: whatever the question can put into
-		// the cache must be there before the first measured path runs
-		warm = "raw"
+	if !strings.Contains(s.name, "@") {
+		// the three paths share one name (also with earlier ops): whatever the
+		// question can put into the cache must be there before the first
+		// measured path runs, and it must not expire half-way through
+		if warm != "raw" && warm != "msg" {
+			warm = "raw"
+		}
+		shift = 0
 	}
 	if warm == "raw" || warm == "msg" {
 		ws := s
@@ -858,7 +872,7 @@ func execQ(a map[string]string) vlib.Res {
 		cache.VerifC05Shift(live.Cache, time.Duration(shift)*time.Second)
 	}
 	warmCalls := live.Stub.Calls.Load() - callsBefore
-	asyncRefresh = liveC.prefetch > 0 && shift > 0
+	asyncRefresh = liveC.prefetch > 0
 	defer func() { asyncRefresh = false }()
 
 	// measured: rep identical questions per path, path order chosen by the op
@@ -874,12 +888,17 @@ func execQ(a map[string]string) vlib.Res {
 	var replies [3][]reply
 	var sent [3][]sentInfo
 	var calls [3]int64
+	inlineBlocked := false
 	for _, p := range order {
 		c0 := live.Stub.Calls.Load()
 		var prev []byte
 		for i := 0; i < rep; i++ {
 			pkt := s.build(markers[p], prev, clientCookie)
+			q0 := live.Stub.Calls.Load()
 			r := serve(p, pkt, remotes[p], proto)
+			if p == 2 && r.inline == "inline" && live.Stub.Calls.Load() != q0 && liveC.prefetch == 0 {
+				inlineBlocked = true
+			}
 			si := sentInfo{pkt: pkt, remote: remotes[p]}
 			if s.edns && s.cookie != "-" {
 				si.cookie = clientCookie
@@ -927,6 +946,11 @@ func execQ(a map[string]string) vlib.Res {
 				fail(sigOf(d), fmt.Sprintf("query#%d %s", i+1, d))
 			}
 		}
+	}
+	if inlineBlocked {
+		// the inline pass runs on a transport reader: it may answer from the wire
+		// ladder only; anything that resolves upstream belongs to the worker replay
+		fail("c05/diff/inline-vs-replay", "an upstream resolution ran on the inline pass (no hand-off to a worker)")
 	}
 	asyncStub := liveC.prefetch > 0
 	if !asyncStub {
